@@ -76,16 +76,35 @@ def gen_case(rng, max_cells=40, max_mag=8, max_events=120, zero_frac=None, rate_
     }
     # object histories / storage layouts that leave the mathematical input unchanged (drawn last: earlier draws keep their values)
     hk = float(rng.uniform())
-    case["history"] = None if hk < 0.65 else ("regridded" if hk < 0.75 else ("inplace-reordered" if hk < 0.85 else ("f4-magnitudes" if hk < 0.93 else "scaled-rates-read")))
+    case["history"] = None if hk < 0.6 else ("regridded" if hk < 0.7 else ("inplace-reordered" if hk < 0.8 else ("f4-magnitudes" if hk < 0.87 else (
+        "scaled-rates-read" if hk < 0.93 else "rescaled-marginals-read-restored"))))
     lk = float(rng.uniform())
     case["layout"] = None if lk < 0.8 else ("F" if lk < 0.9 else "T")
+    # cells flagged 0 in the region's mask (the csep1 flag column): they keep their row in the rate table but are not part of the region; only
+    # cells without events are flagged, so the mathematical input is unchanged
+    mk = float(rng.uniform())
+    free = sorted(set(range(ncell)) - set(int(c) for c in ev_cell))
+    case["mask"] = None
+    if mk < 0.12 and free and ncell >= 2:
+        masked = set(int(c) for c in rng.choice(free, min(len(free), int(rng.integers(1, 3))), replace=False))
+        case["mask"] = [0 if c in masked else 1 for c in range(ncell)]
     return case
 
 
 def build(case, name="fore"):
     """-> (forecast, catalog, region, w) ; w = reference gridded counts (cells x mags)."""
     mags = fixtures.mag_bins(case["mag0"], case["dmag"], case["nmag"])
-    reg = fixtures.region(case["nx"], case["ny"], case["dh"], case["ax"], case["ay"], magnitudes=mags)
+    if case.get("mag_dtype") == "int":
+        mags = mags.astype(numpy.int64)          # integer-typed bin edges (mag0 / dmag are integers in such a case)
+    elif case.get("mag_dtype") == "f4":
+        mags = mags.astype(numpy.float32)
+    mask = case.get("mask")
+    if mask is not None:
+        # a check may have re-drawn the events after gen_case: a cell that holds an event is never flagged
+        occupied = set(int(c) for c in case["ev_cell"])
+        mask = [1 if c in occupied else int(m) for c, m in enumerate(mask)]
+    reg = fixtures.region(case["nx"], case["ny"], case["dh"], case["ax"], case["ay"], magnitudes=mags, mask=mask)
+    reg._verif_mask = mask
     rates = numpy.array(case["rates"], dtype=float)
     fore = fixtures.gridded_forecast(rates, reg, mags, name=name)
     ec = numpy.asarray(case["ev_cell"], dtype=int)
@@ -134,6 +153,15 @@ def build(case, name="fore"):
     if hist == "scaled-rates-read" and n:
         # history: the per-day rates at the events were read from this forecast object (what a T-test with scale=True does) before the test
         _quiet(lambda: fore.target_event_rates(cat, scale=True))
+    if hist == "rescaled-marginals-read-restored":
+        # history: the forecast was scaled, its marginals and total were read, and the scale was set back to 1 ("use a value of 1 to recover
+        # the original value of the forecast")
+        fore.scale(0.5)
+        _quiet(fore.spatial_counts)
+        _quiet(fore.magnitude_counts)
+        _quiet(lambda: fore.event_count)
+        _quiet(fore.sum)
+        fore.scale(1)
     return fore, cat, reg, w
 
 
